@@ -51,7 +51,13 @@ def run_case(case):
         return res
     opts = layout.FreeOpts(p_cont=0.3, comments=True, p_comment=0.25, p_trailing=0.2, p_between=0.4, p_blank=0.0, p_extra_blank=0.0,
                            p_semi=0.25 if case["seed"] % 3 == 0 else 0.0)
-    L = layout.render_free(p, case["seed"] ^ 0xC11, opts)
+    qc = None
+    if case["seed"] % 3 == 1:
+        # comments with unbalanced quote marks behind continued statements that hold literals
+        from fv.props.c04 import QUOTE_COMMENTS as qc
+        opts = layout.FreeOpts(p_cont=0.7, comments=True, p_comment=0.1, p_trailing=0.6, p_between=0.3, p_blank=0.0, p_extra_blank=0.0,
+                               max_cuts=4, p_lit_cut=0.3)
+    L = layout.render_free(p, case["seed"] ^ 0xC11, opts, comment_texts=qc)
     L.lines = [l for l in L.lines]
     src = L.text()
     flat = layout.flat_with_depth(p)
